@@ -289,5 +289,48 @@ def local_assignments(fn):
     return out
 
 
+def inline_aliases(fn, interesting):
+    """Copy of `fn` in which single-assignment locals bound to an expression satisfying `interesting(expr)`
+    are replaced by that expression at their uses (so `exhausted = self._a if s else self._b; exhausted[k] = v`
+    is seen as `(self._a if s else self._b)[k] = v`).  Parent links and qualname/module tags are preserved."""
+    import copy
+
+    counts, defs = {}, {}
+    for n in walk_no_nested(fn):
+        if isinstance(n, ast.Assign):
+            for tt in n.targets:
+                for t in _targets(tt):
+                    if isinstance(t, ast.Name):
+                        counts[t.id] = counts.get(t.id, 0) + 1
+                        if len(n.targets) == 1 and tt is t:
+                            defs[t.id] = n.value
+        elif isinstance(n, (ast.AugAssign, ast.For, ast.comprehension, ast.NamedExpr)):
+            tg = n.target
+            for t in _targets(tg):
+                if isinstance(t, ast.Name):
+                    counts[t.id] = counts.get(t.id, 0) + 2
+    al = {k: v for k, v in defs.items() if counts.get(k) == 1 and interesting(v)}
+    if not al:
+        return fn
+    new = copy.deepcopy(fn)
+
+    class T(ast.NodeTransformer):
+        def visit_Name(self, n):
+            if isinstance(n.ctx, ast.Load) and n.id in al:
+                return ast.copy_location(copy.deepcopy(al[n.id]), n)
+            return n
+
+    T().visit(new)
+    ast.fix_missing_locations(new)
+    for node in ast.walk(new):
+        for child in ast.iter_child_nodes(node):
+            child._parent = node
+    new._parent = getattr(fn, "_parent", None)
+    for a in ("_qualname", "_module", "_class"):
+        if hasattr(fn, a):
+            setattr(new, a, getattr(fn, a))
+    return new
+
+
 def methods_of(cdef):
     return {st.name: st for st in cdef.body if isinstance(st, FuncTypes)}
